@@ -22,6 +22,9 @@ import (
 	"github.com/tidwall/tile38/internal/log"
 )
 
+var errHookChannelSameName = errors.New(
+	"hooks and channels cannot share the same name")
+
 var hookLogSetDefaults = &buntdb.SetOptions{
 	Expires: true, // automatically delete after 30 seconds
 	TTL:     time.Second * 30,
@@ -159,8 +162,7 @@ func (s *Server) cmdSetHook(msg *Message) (
 	prevHook, _ := s.hooks.Get(&Hook{Name: name}).(*Hook)
 	if prevHook != nil {
 		if prevHook.channel != channel {
-			return NOMessage, d,
-				errors.New("hooks and channels cannot share the same name")
+			return NOMessage, d, errHookChannelSameName
 		}
 		if prevHook.Equals(hook) {
 			// it was a match so we do nothing. But let's signal just
